@@ -271,6 +271,13 @@ func Tokenize(source string) ([]Token, error) {
 					// Detected string end.
 					i++
 					token = newToken(str, STRING_LITERAL, ogRow, ogColumn)
+
+					// A literal may span several lines, keep row and column of the following tokens correct.
+					if lines := strings.Split(source[ogI:i], "\n"); len(lines) > 1 {
+						row += len(lines) - 1
+						ogColumn = startIndex
+						ogI = i - len(lines[len(lines)-1])
+					}
 					break
 				}
 
